@@ -308,6 +308,65 @@ def kzlen(fn, out, name):
     out.append(defn(name, [('n1d', 'Z')], 'Z', text))
 
 
+# ------------------------------------------------------------------------------------------ thread bookkeeping
+def thread_events(fn, loop, out, name, sites):
+    """The top-level statements of the kernel up to its prange loop, reduced to set_num_threads / get_num_threads /
+    allocation of the accumulators indexed by `tid` (= numba.get_thread_id()) / the loop itself, in source order."""
+    site = f'{fn.name}:thread-bookkeeping'
+    tid_assign = [s for s in loop.body if isinstance(s, ast.Assign) and is_name(s.targets[0], 'tid')]
+    if len(tid_assign) != 1 or not (is_call(tid_assign[0].value, 'numba.get_thread_id') and not tid_assign[0].value.args):
+        raise TE(f'site {site}: expected `tid = numba.get_thread_id()` at the top of the prange loop')
+    per_thread = set()
+    for n in ast.walk(loop):
+        if isinstance(n, ast.Subscript) and is_name(n.value) and index_names(n)[:1] == ['tid']:
+            per_thread.add(n.value.id)
+    if not per_thread:
+        raise TE(f'site {site}: no accumulator indexed by tid')
+    if loop not in fn.body:
+        raise TE(f'site {site}: the prange loop is not a top-level statement of the kernel')
+    evs, bound, allocated = [], {'nthread'}, set()
+
+    def mentions_thread_api(node):
+        return any(is_call(c, 'numba.set_num_threads') or is_call(c, 'numba.get_num_threads') for c in ast.walk(node))
+    for s in fn.body:
+        if s is loop:
+            evs.append('TLoop')
+            break
+        if isinstance(s, ast.Expr) and is_call(s.value, 'numba.set_num_threads'):
+            a = s.value.args
+            if not (len(a) == 1 and is_name(a[0]) and a[0].id in bound and not s.value.keywords):
+                raise TE(f'site {site}: numba.set_num_threads argument is not the nthread parameter or a saved thread count')
+            evs.append(f'TSet "{a[0].id}"%string')
+            continue
+        if isinstance(s, ast.Assign) and len(s.targets) == 1 and is_name(s.targets[0]):
+            tgt = s.targets[0].id
+            if is_call(s.value, 'numba.get_num_threads') and not s.value.args:
+                evs.append(f'TGet "{tgt}"%string')
+                bound.add(tgt)
+                continue
+            if tgt in per_thread:
+                v = s.value
+                if not (is_call(v, 'np.zeros') and v.args and isinstance(v.args[0], ast.Tuple) and v.args[0].elts
+                        and is_name(v.args[0].elts[0]) and v.args[0].elts[0].id in bound):
+                    raise TE(f'site {site}: accumulator {tgt} is not allocated as np.zeros((<thread count>, ...))')
+                evs.append(f'TAlloc "{v.args[0].elts[0].id}"%string')
+                allocated.add(tgt)
+                continue
+            if tgt in bound:
+                raise TE(f'site {site}: thread-count variable {tgt} is reassigned by something other than get_num_threads()')
+        if mentions_thread_api(s):
+            raise TE(f'site {site}: numba thread API used inside an unsupported statement')
+        for n in ast.walk(s):
+            if isinstance(n, (ast.Assign, ast.AugAssign)):
+                for t in (n.targets if isinstance(n, ast.Assign) else [n.target]):
+                    if is_name(t) and (t.id in bound or t.id in per_thread):
+                        raise TE(f'site {site}: {t.id} is assigned inside a nested statement before the loop')
+    if per_thread - allocated:
+        raise TE(f'site {site}: no allocation found for {sorted(per_thread - allocated)}')
+    out.append(f'Definition {name} : list tev := [' + '; '.join(evs) + '].\n')
+    sites.append(site)
+
+
 # ------------------------------------------------------------------------------------------ bin_kmu
 def gen_kmu(tree, out, sites):
     fn = py2v.find_function(tree, 'bin_kmu')
@@ -318,6 +377,7 @@ def gen_kmu(tree, out, sites):
         raise TE('site bin_kmu: prange variable is not i')
     if shape(li.body) != ['assign:tid', 'assign:i2', 'for']:
         raise TE(f'site bin_kmu: unexpected i-loop body {shape(li.body)}')
+    thread_events(fn, li, out, 'kmu_tevents', sites)
     sites.append(fold_expr(li, 'i', 'i2', fn, out, 'kmu_fold_i'))
     lj = range_loops(li.body, 'bin_kmu:j', 'n1d')
     if shape(lj.body) != ['assign:tuple', 'assign:j2', 'for']:
@@ -401,6 +461,7 @@ def gen_kppi(tree, out, sites):
         raise TE('site bin_kppi: prange variable is not i')
     if shape(li.body) != ['assign:tid', 'assign:i2', 'for']:
         raise TE(f'site bin_kppi: unexpected i-loop body {shape(li.body)}')
+    thread_events(fn, li, out, 'kppi_tevents', sites)
     sites.append(fold_expr(li, 'i', 'i2', fn, out, 'kppi_fold_i'))
     lj = range_loops(li.body, 'bin_kppi:j', 'n1d')
     body = [s for s in lj.body if kind_of(s) != 'doc']
@@ -497,7 +558,7 @@ def generate(repo):
     gen_kmu(tree, out, sites)
     gen_kppi(tree, out, sites)
     gen_other_sites(tree, out, sites)
-    text = py2v.header(REL, sha, sites) + 'From Abacus.C08 Require Import Parts.\n\n' + '\n'.join(out)
+    text = py2v.header(REL, sha, sites) + 'From Coq Require Import String.\nFrom Abacus.C08 Require Import Parts.\n\n' + '\n'.join(out)
     meta = {'source': REL, 'sha256': sha, 'sites': sites,
             'normalisations': ['dtype(<integral float literal>) -> integer literal', 'x ** -1 -> 1.0 / x',
                                'weights[i, j, k], np.sqrt(kmag2), edges[...] -> variable (index checked/emitted separately)',
